@@ -161,7 +161,7 @@ def contents(tier):
             if tier == 'quick' and n == 3:
                 idsets = [p for p in idsets if 0 in p]
             for ids in idsets:
-                for links in LY.link_sets(par, 2 if n <= 3 else 1):
+                for links in LY.link_sets(par, 3 if n == 3 else 2 if n < 3 else 1):
                     if LY.direct_cycle(n, links):
                         continue
                     yield 'structure', Content(par, ids, links, [{'name': 'n%d' % i} for i in range(n)])
